@@ -1,3 +1,619 @@
-import NoteSeqVerif.Model.C02
+import NoteSeqVerif.Proofs.C02State
+import NoteSeqVerif.Proofs.C02Split
+/-! C02 — property theorems (DESIGN 6.2).
+
+Conventions: `st` is the split-time vector, piece `i` is cut at `a = st[i]`, `b = st[i+1]`;
+`Valid s st` = the inputs `_extract_subsequences` accepts (unquantized, ≥ 2 split times, sorted,
+every split time but the last `< total_time`).  `R` is the rounding operator applied after each float
+operation (`rne53` in the compiled model that is compared bit-exactly with the Python; `id` = exact
+arithmetic).  Theorems that speak about instants (`…_in_effect`) are for `R = id`. -/
 namespace NSV.C02
+
+variable {R : Rat → Rat} {preserve : List Int} {s : NoteSeq} {st : List Rat} {ps : List NoteSeq}
+
+/-! ## shape of the result -/
+
+/-- a successful extraction is the list of closed-form pieces, one per consecutive pair of split times -/
+theorem extract_pieces (hv : Valid s st) (h : extractSubsequencesR R preserve s st = .ok ps) :
+    ps = (pairs st).map (specPiece R preserve s) := by
+  rw [extract_eq_spec R preserve s st hv] at h
+  exact (Except.ok.inj h).symm
+
+theorem extract_length (hv : Valid s st) (h : extractSubsequencesR R preserve s st = .ok ps) :
+    ps.length + 1 = st.length := by
+  rw [extract_pieces hv h, List.length_map]
+  obtain ⟨_, h2, _, _⟩ := hv
+  match st, h2 with
+  | a :: b :: r, _ => simp [pairs_length]
+
+/-- piece `i` is the closed-form piece of `[st[i], st[i+1])` -/
+theorem extract_piece (hv : Valid s st) (h : extractSubsequencesR R preserve s st = .ok ps)
+    {i : Nat} {a b : Rat} (ha : st[i]? = some a) (hb : st[i + 1]? = some b) :
+    ps[i]? = some (specPiece R preserve s (a, b)) := by
+  rw [extract_pieces hv h, List.getElem?_map, (pairs_getElem? st i a b).mpr ⟨ha, hb⟩]
+  rfl
+
+/-! ## errors: exactly which inputs are rejected -/
+
+theorem extract_trichotomy (R : Rat → Rat) (preserve : List Int) (s : NoteSeq) (st : List Rat) :
+    (s.isQuantized = true ∧ extractSubsequencesR R preserve s st = .error .quantizationStatusError) ∨
+    (s.isQuantized = false ∧ ¬ Valid s st ∧ extractSubsequencesR R preserve s st = .error .valueError) ∨
+    (Valid s st ∧ extractSubsequencesR R preserve s st = .ok ((pairs st).map (specPiece R preserve s))) := by
+  by_cases hq : s.isQuantized = true
+  · left; exact ⟨hq, by simp [extractSubsequencesR, hq]⟩
+  · right
+    have hq' : s.isQuantized = false := by simpa using hq
+    by_cases hv : Valid s st
+    · right; exact ⟨hv, extract_eq_spec R preserve s st hv⟩
+    · left
+      refine ⟨hq', hv, ?_⟩
+      unfold extractSubsequencesR
+      simp only [hq', Bool.false_eq_true, ↓reduceIte]
+      match st with
+      | [] => rfl
+      | [_] => rfl
+      | t0 :: t1 :: r =>
+        simp only
+        by_cases h1 : (pairs (t0 :: t1 :: r)).any (fun p => decide (p.1 > p.2)) = true
+        · simp [h1]
+        · have h1' : (pairs (t0 :: t1 :: r)).any (fun p => decide (p.1 > p.2)) = false := by simpa using h1
+          have hs := (pairs_sorted_iff _).mp h1'
+          by_cases h3 : (pairs (t0 :: t1 :: r)).any (fun p => decide (p.1 ≥ s.totalTime)) = true
+          · simp [h1', h3]
+          · exfalso
+            apply hv
+            refine ⟨hq', by simp, hs, ?_⟩
+            intro t ht
+            have h3' : ¬ ∃ t ∈ (t0 :: t1 :: r).dropLast, s.totalTime ≤ t :=
+              fun hex => h3 ((pairs_pastEnd_iff _ _).mpr hex)
+            exact Rat.not_le.mp (fun hle => h3' ⟨t, ht, hle⟩)
+
+/-- `QuantizationStatusError` iff the sequence is quantized; `ValueError` iff it is not and there are
+fewer than two split times, or they are unsorted, or one other than the last is `≥ total_time`;
+a result otherwise; no other error. -/
+theorem extract_errors (R : Rat → Rat) (preserve : List Int) (s : NoteSeq) (st : List Rat) :
+    (extractSubsequencesR R preserve s st = .error .quantizationStatusError ↔ s.isQuantized = true) ∧
+    (extractSubsequencesR R preserve s st = .error .valueError ↔
+      s.isQuantized = false ∧
+        (st.length < 2 ∨ ¬ SortedLE st ∨ ∃ t ∈ st.dropLast, s.totalTime ≤ t)) ∧
+    ((∃ ps, extractSubsequencesR R preserve s st = .ok ps) ↔ Valid s st) ∧
+    (∀ e, extractSubsequencesR R preserve s st = .error e →
+      e = .quantizationStatusError ∨ e = .valueError) := by
+  have hnv : ¬ Valid s st ↔ (s.isQuantized = true ∨ st.length < 2 ∨ ¬ SortedLE st ∨
+      ∃ t ∈ st.dropLast, s.totalTime ≤ t) := by
+    constructor
+    · intro hv
+      by_cases hq : s.isQuantized = true
+      · exact Or.inl hq
+      · by_cases h2 : st.length < 2
+        · exact Or.inr (Or.inl h2)
+        · by_cases hs : SortedLE st
+          · refine Or.inr (Or.inr (Or.inr ?_))
+            apply Classical.byContradiction
+            intro hex
+            apply hv
+            refine ⟨by simpa using hq, by omega, hs, ?_⟩
+            intro t ht
+            exact Rat.not_le.mp (fun hle => hex ⟨t, ht, hle⟩)
+          · exact Or.inr (Or.inr (Or.inl hs))
+    · rintro (hq | h2 | hs | ⟨t, ht, hle⟩) hv
+      · rw [hv.unquantized] at hq; exact Bool.false_ne_true hq
+      · have := hv.two; omega
+      · exact hs hv.sorted
+      · exact absurd (hv.inside t ht) (Rat.not_lt.mpr hle)
+  rcases extract_trichotomy R preserve s st with ⟨hq, he⟩ | ⟨hq, hv, he⟩ | ⟨hv, he⟩
+  · rw [he]
+    refine ⟨by simp [hq], by simp [hq], ?_, by simp⟩
+    constructor
+    · rintro ⟨ps, h⟩; cases h
+    · intro hv; rw [hv.unquantized] at hq; exact absurd hq Bool.false_ne_true
+  · rw [he]
+    refine ⟨by simp [hq], ?_, ?_, by simp⟩
+    · simp only [true_iff]
+      refine ⟨hq, ?_⟩
+      rcases hnv.mp hv with h | h
+      · rw [hq] at h; exact absurd h Bool.false_ne_true
+      · exact h
+    · constructor
+      · rintro ⟨ps, h⟩; cases h
+      · intro hv'; exact absurd hv' hv
+  · rw [he]
+    refine ⟨by simp [hv.unquantized], ?_, ⟨fun _ => hv, fun _ => ⟨_, rfl⟩⟩, by simp⟩
+    constructor
+    · intro h; cases h
+    · rintro ⟨_, h⟩
+      exact absurd hv (hnv.mpr (Or.inr h))
+
+/-- `extract_subsequence`: `ValueError` iff `start > end` or `start ≥ total_time` -/
+theorem extract_subsequence_spec (R : Rat → Rat) (preserve : List Int) (s : NoteSeq) (a b : Rat) :
+    extractSubsequenceR R preserve s a b =
+      if s.isQuantized then .error .quantizationStatusError
+      else if a > b ∨ s.totalTime ≤ a then .error .valueError
+      else .ok (specPiece R preserve s (a, b)) := by
+  unfold extractSubsequenceR extractSubsequencesR
+  by_cases hq : s.isQuantized = true
+  · simp [hq]
+  · simp only [hq, Bool.false_eq_true, ↓reduceIte, pairs, List.any_cons, List.any_nil, Bool.or_false]
+    by_cases h1 : a > b
+    · simp [h1]
+    · by_cases h2 : s.totalTime ≤ a
+      · simp [h1, h2]
+      · have hs : SortedLE [a, b] := by simp [SortedLE]; exact Rat.not_lt.mp h1
+        simp only [h1, h2, decide_false, Bool.false_eq_true, ↓reduceIte, or_self]
+        rw [assemble_eq_spec R preserve s a [b] hs]
+        simp [pairs]
+
+/-! ## notes -/
+
+/-- piece `i` holds exactly the notes starting in `[a, b)`, in stable start order, shifted by `-a`
+with the end clipped to `b`; every other attribute is untouched (`clipR` changes `start`/`end_` only) -/
+theorem extract_notes_spec (hv : Valid s st) (h : extractSubsequencesR R preserve s st = .ok ps)
+    {i : Nat} {a b : Rat} (ha : st[i]? = some a) (hb : st[i + 1]? = some b) :
+    ∃ p, ps[i]? = some p ∧
+      p.notes = ((sortByRat (·.start) s.notes).filter
+        (fun n => decide (a ≤ n.start) && decide (n.start < b))).map (clipR R a b) :=
+  ⟨_, extract_piece hv h ha hb, rfl⟩
+
+/-- what `clipR` does, field by field -/
+theorem clipR_fields (R : Rat → Rat) (a b : Rat) (n : Note) :
+    (clipR R a b n).start = R (n.start - a) ∧ (clipR R a b n).end_ = R (min n.end_ b - a) ∧
+    { clipR R a b n with start := n.start, end_ := n.end_ } = n := ⟨rfl, rfl, rfl⟩
+
+/-- **nothing lost, nothing invented**: there are selections `sel[i]` of the original notes with
+piece `i` = `sel[i]` clipped, every selected note starts inside its piece, and all selections together
+are a permutation (multiset equality) of the notes starting in `[first split, last split)`. -/
+theorem extract_partition (hv : Valid s st) (h : extractSubsequencesR R preserve s st = .ok ps)
+    {t0 tl : Rat} (h0 : st.head? = some t0) (hl : st.getLast? = some tl) :
+    ∃ sel : List (List Note), sel.length = ps.length ∧
+      (∀ i a b, st[i]? = some a → st[i + 1]? = some b →
+        ∃ p l, ps[i]? = some p ∧ sel[i]? = some l ∧ p.notes = l.map (clipR R a b) ∧
+          ∀ n ∈ l, a ≤ n.start ∧ n.start < b) ∧
+      sel.flatten.Perm (s.notes.filter (fun n => decide (t0 ≤ n.start) && decide (n.start < tl))) := by
+  have hps := extract_pieces hv h
+  refine ⟨(pairs st).map (fun ab => (sortByRat (·.start) s.notes).filter (inIv ab.1 ab.2)), ?_, ?_, ?_⟩
+  · rw [hps]; simp
+  · intro i a b ha hb
+    refine ⟨_, _, extract_piece hv h ha hb, ?_, rfl, ?_⟩
+    · rw [List.getElem?_map, (pairs_getElem? st i a b).mpr ⟨ha, hb⟩]; rfl
+    · intro n hn
+      have := (List.mem_filter.mp hn).2
+      simpa [inIv] using this
+  · obtain ⟨_, h2, hs, _⟩ := hv
+    match st, h2 with
+    | x :: y :: r, _ =>
+      simp only [List.head?_cons, Option.some.injEq] at h0
+      subst h0
+      have hl' : (x :: y :: r).getLast (List.cons_ne_nil _ _) = tl := by
+        rw [List.getLast?_eq_some_getLast (List.cons_ne_nil _ _)] at hl
+        exact Option.some.inj hl
+      have := filter_pairs_perm (sortByRat (·.start) s.notes) x (y :: r) hs
+      rw [hl'] at this
+      exact this.trans ((sortByRat_perm _ _).filter _)
+
+/-- every note of every piece is a clipped original note -/
+theorem extract_notes_nothing_invented (hv : Valid s st)
+    (h : extractSubsequencesR R preserve s st = .ok ps) :
+    ∀ p ∈ ps, ∀ m ∈ p.notes, ∃ n ∈ s.notes, ∃ a b, m = clipR R a b n := by
+  intro p hp m hm
+  rw [extract_pieces hv h] at hp
+  obtain ⟨ab, _, rfl⟩ := List.mem_map.mp hp
+  simp only [specPiece, specNotes] at hm
+  obtain ⟨n, hn, rfl⟩ := List.mem_map.mp hm
+  exact ⟨n, (sortByRat_perm _ _).mem_iff.mp (List.mem_filter.mp hn).1, _, _, rfl⟩
+
+/-! ## state in effect (tempo, time signature, key signature, chord symbol) -/
+
+/-- closed form of the four state containers of piece `i`: the last event at or before `a` in stable
+time order re-emitted at time 0, then the events strictly inside `(a, b)` shifted by `-a`.  An event
+exactly at `b` is not in the piece; it is the carried state of the next one. -/
+theorem state_pieces_spec (hv : Valid s st) (h : extractSubsequencesR R preserve s st = .ok ps)
+    {i : Nat} {a b : Rat} (ha : st[i]? = some a) (hb : st[i + 1]? = some b) :
+    ∃ p, ps[i]? = some p ∧
+      p.timeSigs = specState R (·.time) TimeSig.setTime s.timeSigs a b ∧
+      p.keySigs = specState R (·.time) KeySig.setTime s.keySigs a b ∧
+      p.tempos = specState R (·.time) Tempo.setTime s.tempos a b ∧
+      chords p = specState R (·.time) TextAnn.setTime (chords s) a b := by
+  refine ⟨_, extract_piece hv h ha hb, rfl, rfl, rfl, ?_⟩
+  have hne : Gen.BEAT ≠ Gen.CHORD_SYMBOL := by decide
+  simp only [chords, specPiece, List.filter_append]
+  have h1 : (specBeats R s a b).filter (fun x => x.kind == Gen.CHORD_SYMBOL) = [] := by
+    rw [List.filter_eq_nil_iff]
+    intro x hx
+    simp only [specBeats, List.mem_map] at hx
+    obtain ⟨e, he, rfl⟩ := hx
+    have he' := (List.mem_filter.mp he).1
+    have hk := (List.mem_filter.mp ((sortByRat_perm _ _).mem_iff.mp he')).2
+    simp only [beq_iff_eq] at hk
+    simp [TextAnn.setTime, hk, hne]
+  have h2 : (specState R (·.time) TextAnn.setTime (s.texts.filter (fun x => x.kind == Gen.CHORD_SYMBOL)) a b).filter
+      (fun x => x.kind == Gen.CHORD_SYMBOL) =
+      specState R (·.time) TextAnn.setTime (s.texts.filter (fun x => x.kind == Gen.CHORD_SYMBOL)) a b := by
+    rw [List.filter_eq_self]
+    intro x hx
+    have hall : ∀ e ∈ sortByRat (·.time) (s.texts.filter (fun x => x.kind == Gen.CHORD_SYMBOL)),
+        e.kind = Gen.CHORD_SYMBOL := by
+      intro e he
+      have := (List.mem_filter.mp ((sortByRat_perm _ _).mem_iff.mp he)).2
+      simpa using this
+    simp only [specState, List.mem_append] at hx
+    rcases hx with hx | hx
+    · cases hl : ((sortByRat (·.time) (s.texts.filter (fun x => x.kind == Gen.CHORD_SYMBOL))).filter
+          (fun e => decide (e.time ≤ a))).getLast? with
+      | none => simp [hl] at hx
+      | some e =>
+        simp [hl] at hx; subst hx
+        have := hall e (List.mem_filter.mp (List.mem_of_getLast? hl)).1
+        simp [TextAnn.setTime, this]
+    · obtain ⟨e, he, rfl⟩ := List.mem_map.mp hx
+      have := hall e (List.mem_filter.mp he).1
+      simp [TextAnn.setTime, this]
+  rw [h1, h2]; simp
+
+/-- **generic in-effect lemma** (exact arithmetic): at every instant `0 ≤ τ < b - a` of a piece the
+event in effect carries the same value as the one in effect at `a + τ` in the original, for every
+`val` that does not look at the time. -/
+theorem extract_state_in_effect {α β : Type} (time : α → Rat) (setTime : α → Rat → α) (val : α → β)
+    (htime : ∀ e t, time (setTime e t) = t) (hval : ∀ e t, val (setTime e t) = val e)
+    (evs : List α) (a b τ : Rat) (h0 : 0 ≤ τ) (h1 : τ < b - a) :
+    (inEffect time (specState id time setTime evs a b) τ).map val = (inEffect time evs (a + τ)).map val :=
+  specState_in_effect time setTime val htime hval evs a b τ h0 h1
+
+section inEffect
+variable (hv : Valid s st) (h : extractSubsequencesR id preserve s st = .ok ps)
+  {i : Nat} {a b τ : Rat} (ha : st[i]? = some a) (hb : st[i + 1]? = some b) (h0 : 0 ≤ τ) (h1 : τ < b - a)
+include hv h ha hb h0 h1
+
+theorem extract_timeSigs_in_effect :
+    ∃ p, ps[i]? = some p ∧
+      (inEffect (·.time) p.timeSigs τ).map (TimeSig.setTime · 0) =
+        (inEffect (·.time) s.timeSigs (a + τ)).map (TimeSig.setTime · 0) :=
+ by
+  refine ⟨specPiece id preserve s (a, b), extract_piece hv h ha hb, ?_⟩
+  show (inEffect (·.time) (specState id (·.time) TimeSig.setTime s.timeSigs a b) τ).map (TimeSig.setTime · 0) = _
+  exact specState_in_effect (·.time) TimeSig.setTime (TimeSig.setTime · 0) (fun _ _ => rfl) (fun _ _ => rfl)
+    s.timeSigs a b τ h0 h1
+
+theorem extract_keySigs_in_effect :
+    ∃ p, ps[i]? = some p ∧
+      (inEffect (·.time) p.keySigs τ).map (KeySig.setTime · 0) =
+        (inEffect (·.time) s.keySigs (a + τ)).map (KeySig.setTime · 0) :=
+ by
+  refine ⟨specPiece id preserve s (a, b), extract_piece hv h ha hb, ?_⟩
+  show (inEffect (·.time) (specState id (·.time) KeySig.setTime s.keySigs a b) τ).map (KeySig.setTime · 0) = _
+  exact specState_in_effect (·.time) KeySig.setTime (KeySig.setTime · 0) (fun _ _ => rfl) (fun _ _ => rfl)
+    s.keySigs a b τ h0 h1
+
+theorem extract_tempos_in_effect :
+    ∃ p, ps[i]? = some p ∧
+      (inEffect (·.time) p.tempos τ).map (Tempo.setTime · 0) =
+        (inEffect (·.time) s.tempos (a + τ)).map (Tempo.setTime · 0) :=
+ by
+  refine ⟨specPiece id preserve s (a, b), extract_piece hv h ha hb, ?_⟩
+  show (inEffect (·.time) (specState id (·.time) Tempo.setTime s.tempos a b) τ).map (Tempo.setTime · 0) = _
+  exact specState_in_effect (·.time) Tempo.setTime (Tempo.setTime · 0) (fun _ _ => rfl) (fun _ _ => rfl)
+    s.tempos a b τ h0 h1
+
+theorem extract_chords_in_effect :
+    ∃ p, ps[i]? = some p ∧
+      (inEffect (·.time) (chords p) τ).map (TextAnn.setTime · 0) =
+        (inEffect (·.time) (chords s) (a + τ)).map (TextAnn.setTime · 0) := by
+  obtain ⟨p, hp, _, _, _, hc⟩ := state_pieces_spec hv h ha hb
+  refine ⟨p, hp, ?_⟩
+  rw [hc]
+  exact specState_in_effect (·.time) TextAnn.setTime (TextAnn.setTime · 0) (fun _ _ => rfl) (fun _ _ => rfl)
+    (chords s) a b τ h0 h1
+
+/-- per `(instrument, control number)`: the pedal value in effect (all fields but the time) -/
+theorem extract_pedal_in_effect (κ : PedalKey) :
+    ∃ p, ps[i]? = some p ∧
+      (inEffectKey p.ccs κ τ).map (CC.setTime · 0) =
+        (inEffectKey (pedals preserve s) κ (a + τ)).map (CC.setTime · 0) :=
+ by
+  refine ⟨specPiece id preserve s (a, b), extract_piece hv h ha hb, ?_⟩
+  show (inEffectKey (specPedals id preserve s a b) κ τ).map (CC.setTime · 0) = _
+  exact specPedals_in_effect preserve s a b τ κ h0 h1
+
+end inEffect
+
+/-- boundary rule: every state event of a (non-empty) piece has `0 ≤ time < b - a`; hence an event
+exactly at the end `b` of piece `i` is not in piece `i` — by `extract_…_in_effect` at `τ = 0` it is the
+state in effect at the start of piece `i+1`. -/
+theorem extract_boundary_event_goes_to_later_piece (hv : Valid s st)
+    (h : extractSubsequencesR id preserve s st = .ok ps)
+    {i : Nat} {a b : Rat} (ha : st[i]? = some a) (hb : st[i + 1]? = some b) (hab : a < b) :
+    ∃ p, ps[i]? = some p ∧
+      (∀ x ∈ p.timeSigs, 0 ≤ x.time ∧ x.time < b - a) ∧ (∀ x ∈ p.keySigs, 0 ≤ x.time ∧ x.time < b - a) ∧
+      (∀ x ∈ p.tempos, 0 ≤ x.time ∧ x.time < b - a) ∧ (∀ x ∈ chords p, 0 ≤ x.time ∧ x.time < b - a) := by
+  obtain ⟨p, hp, h1, h2, h3, h4⟩ := state_pieces_spec hv h ha hb
+  refine ⟨p, hp, ?_, ?_, ?_, ?_⟩
+  · have := specState_times (α := TimeSig) (fun e => e.time) TimeSig.setTime (fun _ _ => rfl) s.timeSigs a b hab
+    rw [h1]; exact this
+  · have := specState_times (α := KeySig) (fun e => e.time) KeySig.setTime (fun _ _ => rfl) s.keySigs a b hab
+    rw [h2]; exact this
+  · have := specState_times (α := Tempo) (fun e => e.time) Tempo.setTime (fun _ _ => rfl) s.tempos a b hab
+    rw [h3]; exact this
+  · have := specState_times (α := TextAnn) (fun e => e.time) TextAnn.setTime (fun _ _ => rfl) (chords s) a b hab
+    rw [h4]; exact this
+
+/-! ## control changes and pitch bends -/
+
+theorem foldl_assocSet_mem (l : List CC) (m : List (PedalKey × CC)) :
+    ∀ kv ∈ l.foldl (fun m e => assocSet m (CC.key e) e) m, kv ∈ m ∨ kv.2 ∈ l := by
+  induction l generalizing m with
+  | nil => intro kv hkv; exact Or.inl hkv
+  | cons e es ih =>
+    intro kv hkv
+    simp only [List.foldl_cons] at hkv
+    rcases ih _ kv hkv with h | h
+    · have : ∀ m : List (PedalKey × CC), ∀ kv ∈ assocSet m (CC.key e) e, kv ∈ m ∨ kv = (CC.key e, e) := by
+        intro m
+        induction m with
+        | nil => intro kv hkv; simp [assocSet] at hkv; exact Or.inr hkv
+        | cons x r ihm =>
+          intro kv hkv
+          by_cases hk : x.1 = CC.key e
+          · simp only [assocSet, hk, ↓reduceIte, List.mem_cons] at hkv
+            rcases hkv with h | h
+            · exact Or.inr h
+            · exact Or.inl (List.mem_cons_of_mem _ h)
+          · simp only [assocSet, hk, ↓reduceIte, List.mem_cons] at hkv
+            rcases hkv with h | h
+            · exact Or.inl (h ▸ List.mem_cons_self)
+            · rcases ihm kv h with h' | h'
+              · exact Or.inl (List.mem_cons_of_mem _ h')
+              · exact Or.inr h'
+      rcases this m kv h with h' | h'
+      · exact Or.inl h'
+      · right; rw [h']; simp
+    · exact Or.inr (List.mem_cons_of_mem _ h)
+
+/-- pitch bends are dropped and only control changes whose number is in the preserve list survive -/
+theorem extract_other_controls_and_bends_dropped (hv : Valid s st)
+    (h : extractSubsequencesR R preserve s st = .ok ps) :
+    ∀ p ∈ ps, p.bends = [] ∧ ∀ c ∈ p.ccs, preserve.contains c.number = true := by
+  intro p hp
+  rw [extract_pieces hv h] at hp
+  obtain ⟨ab, _, rfl⟩ := List.mem_map.mp hp
+  refine ⟨rfl, ?_⟩
+  intro c hc
+  have hS : ∀ e ∈ sortByRat (·.time) (pedals preserve s), preserve.contains e.number = true := by
+    intro e he
+    exact (List.mem_filter.mp ((sortByRat_perm _ _).mem_iff.mp he)).2
+  simp only [specPiece, specPedals, pieceSpec, List.mem_append] at hc
+  rcases hc with hc | hc
+  · simp only [pedalL, memAt, List.mem_map] at hc
+    obtain ⟨kv, hkv, rfl⟩ := hc
+    rcases foldl_assocSet_mem _ [] kv hkv with h' | h'
+    · simp at h'
+    · exact hS kv.2 (List.mem_filter.mp h').1
+  · simp only [inside, pedalL, List.mem_map] at hc
+    obtain ⟨e, he, rfl⟩ := hc
+    exact hS e (List.mem_filter.mp he).1
+
+/-! ## beats, text container, totals, subsequence_info, frame -/
+
+/-- BEAT annotations follow the note rule: those with `a ≤ time < b`, stable time order, shifted -/
+theorem extract_beats (hv : Valid s st) (h : extractSubsequencesR R preserve s st = .ok ps)
+    {i : Nat} {a b : Rat} (ha : st[i]? = some a) (hb : st[i + 1]? = some b) :
+    ∃ p, ps[i]? = some p ∧
+      beats p = ((sortByRat (·.time) (beats s)).filter
+        (fun e => decide (a ≤ e.time) && decide (e.time < b))).map
+          (fun e => TextAnn.setTime e (R (e.time - a))) := by
+  obtain ⟨p, hp, _, _, _, hc⟩ := state_pieces_spec hv h ha hb
+  have hpe := extract_piece hv h ha hb
+  rw [hp] at hpe
+  have hp' : p = specPiece R preserve s (a, b) := Option.some.inj hpe
+  refine ⟨p, hp, ?_⟩
+  have hne : Gen.CHORD_SYMBOL ≠ Gen.BEAT := by decide
+  have htexts : p.texts = specState R (·.time) TextAnn.setTime (chords s) a b ++ specBeats R s a b := by
+    rw [hp']; rfl
+  have hch : ∀ x ∈ specState R (·.time) TextAnn.setTime (chords s) a b, x.kind = Gen.CHORD_SYMBOL := by
+    intro x hx
+    rw [← hc] at hx
+    have := (List.mem_filter.mp hx).2
+    simpa using this
+  have hbt : ∀ x ∈ specBeats R s a b, x.kind = Gen.BEAT := by
+    intro x hx
+    simp only [specBeats, List.mem_map] at hx
+    obtain ⟨e, he, rfl⟩ := hx
+    have he' := (List.mem_filter.mp he).1
+    have hk := (List.mem_filter.mp ((sortByRat_perm _ _).mem_iff.mp he')).2
+    simpa [TextAnn.setTime] using hk
+  unfold beats
+  rw [htexts, List.filter_append]
+  have h1 : (specState R (·.time) TextAnn.setTime (chords s) a b).filter
+      (fun x => x.kind == Gen.BEAT) = [] := by
+    rw [List.filter_eq_nil_iff]; intro x hx
+    have := hch x hx
+    simp [this, hne]
+  have h2 : (specBeats R s a b).filter (fun x => x.kind == Gen.BEAT) = specBeats R s a b := by
+    rw [List.filter_eq_self]; intro x hx; simp [hbt x hx]
+  rw [h1, h2]; rfl
+
+/-- the text container of a piece: chord symbols (with carried state) first, then beats; nothing else -/
+theorem extract_texts (hv : Valid s st) (h : extractSubsequencesR R preserve s st = .ok ps)
+    {i : Nat} {a b : Rat} (ha : st[i]? = some a) (hb : st[i + 1]? = some b) :
+    ∃ p, ps[i]? = some p ∧
+      p.texts = specState R (·.time) TextAnn.setTime (chords s) a b ++ specBeats R s a b :=
+  ⟨_, extract_piece hv h ha hb, rfl⟩
+
+/-- `total_time` of a piece is its largest (clipped) note end, `0` if it has no note -/
+theorem extract_total_time (hv : Valid s st) (h : extractSubsequencesR R preserve s st = .ok ps) :
+    ∀ p ∈ ps, 0 ≤ p.totalTime ∧ (∀ n ∈ p.notes, n.end_ ≤ p.totalTime) ∧
+      (p.totalTime = 0 ∨ ∃ n ∈ p.notes, n.end_ = p.totalTime) := by
+  intro p hp
+  rw [extract_pieces hv h] at hp
+  obtain ⟨ab, _, rfl⟩ := List.mem_map.mp hp
+  exact pieceTotal_spec _
+
+/-- `subsequence_info`: start offset = the split time, end offset = `(total - a) - piece total` -/
+theorem extract_subsequence_info (hv : Valid s st) (h : extractSubsequencesR R preserve s st = .ok ps)
+    {i : Nat} {a b : Rat} (ha : st[i]? = some a) (hb : st[i + 1]? = some b) :
+    ∃ p, ps[i]? = some p ∧ p.hasSub = true ∧ p.subStart = a ∧
+      p.subEnd = R (R (s.totalTime - a) - p.totalTime) :=
+  ⟨_, extract_piece hv h ha hb, rfl, rfl, rfl⟩
+
+/-- everything the extractor does not slice is copied unchanged -/
+theorem extract_frame (hv : Valid s st) (h : extractSubsequencesR R preserve s st = .ok ps) :
+    ∀ p ∈ ps, p.sectionAnns = s.sectionAnns ∧ p.sgroups = s.sgroups ∧ p.totalQSteps = s.totalQSteps ∧
+      p.spq = s.spq ∧ p.sps = s.sps ∧ p.tpq = s.tpq ∧ p.metaTag = s.metaTag := by
+  intro p hp
+  rw [extract_pieces hv h] at hp
+  obtain ⟨ab, _, rfl⟩ := List.mem_map.mp hp
+  exact ⟨rfl, rfl, rfl, rfl, rfl, rfl, rfl⟩
+
+/-! ## split vectors -/
+
+/-- the vector handed to the extractor: `0`, the accepted candidates, and `total_time` if it lies
+beyond the last of them (the trailing piece ends at `total_time`); no piece iff that vector has one
+element, i.e. nothing was accepted and `total_time ≤ 0`. -/
+theorem split_with_spec (R : Rat → Rat) (preserve : List Int) (s : NoteSeq) (vs : List Rat) :
+    splitWith R preserve s vs =
+      (if s.totalTime > (0 :: vs).getLast (List.cons_ne_nil _ _)
+        then extractSubsequencesR R preserve s ((0 :: vs) ++ [s.totalTime])
+        else if vs = [] then .ok [] else extractSubsequencesR R preserve s (0 :: vs)) := by
+  unfold splitWith
+  by_cases h : s.totalTime > (0 :: vs).getLast (List.cons_ne_nil _ _)
+  · simp [h]
+  · simp only [h, ↓reduceIte]
+    cases vs with
+    | nil => simp
+    | cons v r => simp
+
+/-- list form of `split_note_sequence`: the candidates are the sorted given times; a candidate `t` is
+dropped iff `skip_splits_inside_notes` and some note has `start < t < end` -/
+theorem split_hop_list_times (R : Rat → Rat) (preserve : List Int) (s : NoteSeq) (hops : List Rat)
+    (skip : Bool) :
+    splitHopListR R preserve s hops skip =
+      splitWith R preserve s ((sortByRat id hops).filter (keep skip s.notes)) := by
+  unfold splitHopListR sortedNotes
+  rw [hopLoop_eq_filter skip _ _ (sortByRat_pairwise id hops) (sortByRat_pairwise _ _)]
+  congr 1
+  apply List.filter_congr
+  intro t _
+  exact keep_perm skip (sortByRat_perm _ _) t
+
+/-- float hop size, exact arithmetic, `h > 0`: the candidates are the hop multiples (see `hop_times_exact`) -/
+theorem split_hop_times (preserve : List Int) (s : NoteSeq) (h : Rat) (hh : 0 < h) (skip : Bool) :
+    splitHopR id preserve s h skip =
+      splitWith id preserve s ((hopTimesR id h s.totalTime).filter (keep skip s.notes)) := by
+  unfold splitHopR sortedNotes
+  have : h ≠ 0 := by grind
+  simp only [this, ↓reduceIte]
+  rw [hopLoop_eq_filter skip _ _ (hopTimes_sorted h s.totalTime hh) (sortByRat_pairwise _ _)]
+  congr 1
+  apply List.filter_congr
+  intro t _
+  exact keep_perm skip (sortByRat_perm _ _) t
+
+/-- the candidates of a hop size `h > 0` are exactly the multiples `k·h`, `k ≥ 1`, below `total_time`,
+in increasing order -/
+theorem hop_times_exact (h total : Rat) (hh : 0 < h) :
+    (∀ t, t ∈ hopTimesR id h total ↔ ∃ k : Nat, 1 ≤ k ∧ t = (k : Rat) * h ∧ t < total) ∧
+    SortedLE (hopTimesR id h total) :=
+  ⟨mem_hopTimes h total hh, hopTimes_sorted h total hh⟩
+
+/-- `split_note_sequence_on_silence`: a note onset is a split point iff it is more than `gap` after
+`max(0, ends of all earlier notes in stable start order)` -/
+theorem split_silence_times (R : Rat → Rat) (preserve : List Int) (s : NoteSeq) (gap : Rat) :
+    splitSilenceR R preserve s gap =
+      splitWith R preserve s (silenceOnsets R gap [] (sortedNotes s)) ∧
+    ∀ t, t ∈ silenceOnsets R gap [] (sortedNotes s) ↔
+      ∃ l₁ n l₂, sortedNotes s = l₁ ++ n :: l₂ ∧ n.start = t ∧ n.start > R (lastActive l₁ + gap) := by
+  refine ⟨?_, ?_⟩
+  · unfold splitSilenceR; rw [silLoop_eq]
+  · intro t
+    have := mem_silenceOnsets R gap [] (sortedNotes s) t
+    simpa using this
+
+/-- `split_note_sequence_on_time_changes`: with `G` the genuine changes (events before `total_time`, in
+stable time order with time signatures before tempos at equal times, whose numerator/denominator resp.
+qpm differs from the value in force — `genuineP` spells "in force" out as the value of the last earlier
+event of that kind, default 4/4 and `dq`), the accepted split times are strictly increasing and are
+exactly the positive times of genuine changes at which no note sounds (when `skip` is set). -/
+theorem split_time_change_times (R : Rat → Rat) (preserve : List Int) (dq : Rat) (s : NoteSeq) (skip : Bool) :
+    splitTimeChangesR R preserve dq s skip =
+      splitWith R preserve s
+        (incr 0 (((genuine (timeChanges s) 4 4 dq).map TC.time).filter (keep skip s.notes))) ∧
+    (incr 0 (((genuine (timeChanges s) 4 4 dq).map TC.time).filter (keep skip s.notes))).Pairwise
+      (fun a b => a < b) ∧
+    (∀ t, t ∈ incr 0 (((genuine (timeChanges s) 4 4 dq).map TC.time).filter (keep skip s.notes)) ↔
+      0 < t ∧ keep skip s.notes t = true ∧ ∃ e ∈ genuine (timeChanges s) 4 4 dq, e.time = t) ∧
+    genuine (timeChanges s) 4 4 dq = genuineP (4, 4) dq [] (timeChanges s) := by
+  have hsorted := genuine_times_sorted s 4 4 dq
+  have hf : SortedLE (((genuine (timeChanges s) 4 4 dq).map TC.time).filter (keep skip s.notes)) :=
+    hsorted.filter _
+  obtain ⟨i1, i2⟩ := incr_spec _ 0 hf
+  refine ⟨?_, i1, ?_, ?_⟩
+  · unfold splitTimeChangesR sortedNotes
+    rw [tcLoop_eq_tcAcc, tcAcc_general skip _ _ [] 0 [] hsorted (sortByRat_pairwise _ _) (by simp)]
+    congr 1
+    simp only [List.nil_append]
+    congr 1
+    apply List.filter_congr
+    intro t _
+    exact keep_perm skip (sortByRat_perm _ _) t
+  · intro t
+    rw [i2, List.mem_filter, List.mem_map]
+    constructor
+    · rintro ⟨⟨⟨e, he, rfl⟩, hk⟩, h0⟩; exact ⟨h0, hk, e, he, rfl⟩
+    · rintro ⟨h0, hk, e, he, rfl⟩; exact ⟨⟨⟨e, he, rfl⟩, hk⟩, h0⟩
+  · have := genuine_eq_genuineP (4, 4) dq (timeChanges s) []
+    simpa [tsForce, tpForce] using this
+
+/-! ## trim -/
+
+theorem trim_spec (s : NoteSeq) (a b : Rat) (hq : s.isQuantized = false) :
+    ∃ p, trim s a b = .ok p ∧
+      p.notes = (s.notes.filter (fun n => decide (a ≤ n.start) && decide (n.start < b))).map
+        (fun n => { n with end_ := min n.end_ b }) ∧
+      p.totalTime = min s.totalTime b ∧
+      { p with notes := s.notes, totalTime := s.totalTime } = s := by
+  unfold trim
+  simp only [hq, Bool.false_eq_true, ↓reduceIte]
+  refine ⟨_, rfl, ?_, rfl, rfl⟩
+  simp only
+  congr 1
+  apply List.filter_congr
+  intro n _
+  by_cases h1 : n.start < a <;> by_cases h2 : n.start < b <;> simp [h1, h2] <;> grind
+
+theorem trim_errors (s : NoteSeq) (a b : Rat) :
+    trim s a b = .error .quantizationStatusError ↔ s.isQuantized = true := by
+  unfold trim
+  by_cases hq : s.isQuantized = true <;> simp [hq]
+
+/-! ## non-vacuity: the hypotheses are satisfiable by a non-trivial input -/
+
+def exNote (p : Int) (a b : Rat) : Note :=
+  { pitch := p, velocity := 80, start := a, end_ := b, qs := 0, qe := 0, instrument := 0, program := 0,
+    isDrum := false, numerator := 0, denominator := 0, voice := 0, part := 0, pitchName := 0 }
+
+/-- three notes (one cut by the split at 2, one starting exactly on it), a tempo change exactly on a
+split time, a time signature before the first cut, pedal events on two instruments -/
+def exSeq : NoteSeq :=
+  { notes := [exNote 64 (3/2) 3, exNote 60 0 1, exNote 62 2 (5/2)],
+    tempos := [⟨0, 120⟩, ⟨2, 60⟩], timeSigs := [⟨1/2, 3, 4⟩],
+    texts := [⟨0, 0, Gen.CHORD_SYMBOL, "C"⟩, ⟨2, 0, Gen.BEAT, ""⟩],
+    ccs := [⟨1/2, 0, 64, 127, 0, 0, false⟩, ⟨1, 0, 64, 0, 1, 0, false⟩, ⟨3/2, 0, 7, 1, 0, 0, false⟩],
+    totalTime := 3 }
+
+example : Valid exSeq [1, 2, 3] := ⟨by decide, by decide, by decide, by decide⟩
+example : ∃ ps, extractSubsequencesR id Gen.PRESERVE exSeq [1, 2, 3] = .ok ps ∧ ps.length = 2 :=
+  ⟨_, extract_eq_spec id Gen.PRESERVE exSeq [1, 2, 3] ⟨by decide, by decide, by decide, by decide⟩, by simp [pairs]⟩
+-- piece boundaries and an instant strictly inside the piece, as the `…_in_effect` theorems need
+example : ([1, 2, 3] : List Rat)[0]? = some 1 ∧ ([1, 2, 3] : List Rat)[0 + 1]? = some 2 ∧
+    (0 : Rat) ≤ 1/2 ∧ (1/2 : Rat) < 2 - 1 := by decide +kernel
+example : ([1, 2, 3] : List Rat).head? = some 1 ∧ ([1, 2, 3] : List Rat).getLast? = some 3 := by decide
+-- rejected inputs exist for each clause of `extract_errors`
+example : ¬ SortedLE [2, 1] := by decide
+example : ∃ t ∈ ([1, 3, 4] : List Rat).dropLast, exSeq.totalTime ≤ t := ⟨3, by decide, by decide⟩
+example : ({ exSeq with spq := 4 } : NoteSeq).isQuantized = true := by decide
+-- a positive hop size below the total time; the trim hypothesis
+example : (0 : Rat) < 3/4 ∧ ∃ k : Nat, 1 ≤ k ∧ (k : Rat) * (3/4) < exSeq.totalTime := ⟨by decide +kernel, 3, by decide, by decide +kernel⟩
+example : exSeq.isQuantized = false := by decide
+-- genuine changes exist: the second tempo differs from the one in force, the first does not
+example : genuine [.tp ⟨0, 120⟩, .ts ⟨1/2, 3, 4⟩, .tp ⟨2, 60⟩] 4 4 120 = [.ts ⟨1/2, 3, 4⟩, .tp ⟨2, 60⟩] := by
+  decide +kernel
+
 end NSV.C02
